@@ -188,7 +188,15 @@ pub fn c08(thorough: bool) -> Vec<Part> {
     a.closure_all = true;
     a.flush_probe = true;
     a.max_outstanding_for_respond = 3;
-    cfgs.push(a);
+    cfgs.push(a.clone());
+    {
+        // the same clients served by a process whose descriptor 0 is free (the first accepted
+        // connection is descriptor 0)
+        let mut z = a;
+        z.label = "one client: split line, split body, pipelined pair; descriptor 0 free in the process".into();
+        z.free_fd0 = true;
+        cfgs.push(z);
+    }
     // B: two clients, out-of-order responses across connections
     let mut pair = tagged_get(1, 0);
     pair.extend_from_slice(&tagged_get(1, 1));
@@ -641,6 +649,31 @@ pub fn c09(thorough: bool) -> Vec<Part> {
         path.extend(rep(SAct::Poll(0), 300));
         path.extend([SAct::Respond(0, 0), SAct::Poll(0)]);
         histories(&mut part, &cfg, path, 4);
+    }
+    if part.violations.is_empty() {
+        // long history: one client pipelines 200 requests over five segments and is never answered;
+        // polling keeps returning normally and the witness is served at every prefix
+        let mut script = vec![];
+        for seg in 0..5 {
+            let mut v = vec![];
+            for k in 0..40 {
+                v.extend_from_slice(&tagged_get(0, seg * 40 + k));
+            }
+            script.push(v);
+        }
+        let mut a = ClientCfg::adversary(script);
+        a.can_close = false;
+        a.can_shut_rd = false;
+        a.can_shut_wr = false;
+        let mut cfg = SrvCfg::base("C09", "scripted: 200 pipelined requests on one connection, never answered; witness", vec![a, witness(1)]);
+        cfg.closure_witness = true;
+        cfg.max_depth = 1000;
+        let mut path = vec![SAct::Connect(0), SAct::Poll(0)];
+        for _ in 0..5 {
+            path.push(SAct::Send(0));
+            path.extend(rep(SAct::Poll(0), 3));
+        }
+        histories(&mut part, &cfg, path, 3);
     }
     run_matrix(&mut part, "C09", thorough);
     vec![part]
